@@ -16,6 +16,11 @@ type knownHooks struct {
 	// KnownF7: Unlock with the right passphrase fails because an imported
 	// extended-public-key account is loaded.
 	KnownF7 func(err error) bool
+	// KnownF22: Extend*Addresses advances the cached indices before the
+	// enclosing transaction commits. When it reports true (the finding is
+	// listed as open; the callee counts the hit) the machine reloads the
+	// manager after a rolled-back extension, which is what hides the shape.
+	KnownF22 func() bool
 }
 
 // wipedKinds are the buffer kinds the C05 statement says are cleared by locking.
